@@ -543,7 +543,21 @@ fn main() {
                         }
                         for &u in &level { if next < n { adj[u].push(Some(next as u16)); next += 1; } }
                     }
-                    "many-init" => { init = (0..n as u16).collect(); for s in 0..n { if s % 7 == 0 && s + 1 < n { adj[s] = vec![Some((s + 1) as u16)]; } } }
+                    "many-init" => {
+                        // more than 1500 initial states (the first ~85 % of the states), the rest hangs below EARLY initial
+                        // states as short chains: whatever is reached from the first initial states lies deeper than the
+                        // initial states that are still waiting at the end of the queue
+                        let k = (n * 85 / 100).max(1600).min(n);
+                        init = (0..k as u16).collect();
+                        for s in 0..k { if s % 7 == 0 && s + 1 < k { adj[s] = vec![Some((s + 1) as u16)]; } }
+                        for t in k..n {
+                            // chains of three hang alternately below the FIRST 400 and the LAST 400 initial states
+                            let parent = if t == k || (t - k) % 3 == 0 {
+                                if ((t - k) / 3) % 2 == 0 { ((t - k) * 5) % 400 } else { k - 1 - ((t - k) * 5) % 400 }
+                            } else { t - 1 };
+                            adj[parent].push(Some(t as u16));
+                        }
+                    }
                     _ => { // comb: a spine with a tooth of length 2 at every spine state
                         let spine = n / 3;
                         for s in 0..spine { let mut v = vec![Some((spine + 2 * s) as u16)]; if s + 1 < spine { v.push(Some((s + 1) as u16)); } adj[s] = v; adj[spine + 2 * s] = vec![Some((spine + 2 * s + 1) as u16)]; }
